@@ -693,7 +693,25 @@ class _HTTPConnection(httputil.HTTPMessageDelegate):
             self._release()
             assert self.client is not None
             fut = self.client.fetch(new_request, raise_error=False)
-            fut.add_done_callback(lambda f: final_callback(f.result()))
+
+            def redirect_done(f: Any) -> None:
+                # raise_error=False only covers HTTP status errors; connection-level
+                # failures of the redirected request are still raised by the future and
+                # must be delivered to the original caller as a 599 response.
+                exc = f.exception()
+                if exc is not None:
+                    response = HTTPResponse(
+                        new_request,
+                        599,
+                        error=exc,
+                        request_time=self.io_loop.time() - self.start_time,
+                        start_time=self.start_wall_time,
+                    )
+                else:
+                    response = f.result()
+                final_callback(response)
+
+            fut.add_done_callback(redirect_done)
             self._on_end_request()
             return
         if self.request.streaming_callback:
